@@ -180,13 +180,25 @@ distinct = distinct input strings (each is one input of the quantifier)"
     let mut rep = Rep::new();
     for cp in 0u32..128 {
         let c = char::from_u32(cp).unwrap();
-        for pos in 0..16 {
+        for pos in (0..16).step_by(if tier == "miri" { 15 } else { 1 }) {
             let mut s = String::new();
             for i in 0..16 {
                 s.push(if i == pos { c } else { FILL[i] as char });
             }
             judge(&mut rep, &s, "ascii_all_positions", true);
             rep.distinct_extra += 1;
+            // immediately afterwards: the twin that differs only in bit 0x20 / 0x80 / 0x01 of that character
+            for m in [0x20u32, 0x40, 0x01] {
+                if let Some(c2) = char::from_u32(cp ^ m) {
+                    let mut t = String::new();
+                    for i in 0..16 {
+                        t.push(if i == pos { c2 } else { FILL[i] as char });
+                    }
+                    judge(&mut rep, &t, "twin_after_original", false);
+                    judge(&mut rep, &s, "twin_after_original", false);
+                    rep.distinct_extra += 1;
+                }
+            }
         }
         judge(&mut rep, &c.to_string(), "single_ascii", true);
         rep.distinct_extra += 1;
@@ -223,7 +235,7 @@ distinct = distinct input strings (each is one input of the quantifier)"
     let mut budget: u64 = match tier {
         "quick" => 300_000,
         "thorough" => 30_000_000,
-        _ => 300,
+        _ => 80,
     };
     // enumerating from longest-first would starve short ones; limit depth by bytes instead
     let max_bytes = match tier {
@@ -234,7 +246,7 @@ distinct = distinct input strings (each is one input of the quantifier)"
     rec(&mut rep, &alpha, &mut String::new(), max_bytes, &mut budget);
     // around the limit: multi-byte chars placed so that the byte length is 14..20
     let mut rng = Rng::new(seed, 0x13);
-    let n_limit = if tier == "miri" { 40 } else { 200_000 };
+    let n_limit = if tier == "miri" { 12 } else { 200_000 };
     for _ in 0..n_limit {
         let target = 13 + rng.below(8) as usize;
         let mut s = String::new();
@@ -254,8 +266,34 @@ distinct = distinct input strings (each is one input of the quantifier)"
         judge(&mut rep, &s, "multibyte_at_limit", true);
         rep.distinct_extra += 1;
     }
+    // two offenders in one string: the FIRST one must be reported whatever kinds they are
+    let offenders: [char; 10] = ['\t', '\u{0}', '\u{7f}', '\u{1b}', '\u{e9}', '\u{80}', '\u{20ac}', '\u{1F600}', '\n', '\u{ff}'];
+    for (ia, a) in offenders.iter().enumerate() {
+        for (ib, b) in offenders.iter().enumerate() {
+            for gap in [0usize, 1, 3] {
+                for lead in [0usize, 1, 5] {
+                    let mut s = String::new();
+                    for i in 0..lead {
+                        s.push(FILL[i] as char);
+                    }
+                    s.push(*a);
+                    for i in 0..gap {
+                        s.push(FILL[lead + i] as char);
+                    }
+                    s.push(*b);
+                    s.push('z');
+                    judge(&mut rep, &s, "two_offenders", false);
+                    rep.distinct_extra += 1;
+                    rep.cell(&[77, ia as u64, ib as u64]);
+                }
+            }
+            if tier == "miri" && ib > 2 {
+                break;
+            }
+        }
+    }
     // lengths 0..64 of plain ASCII
-    for n in 0..=64usize {
+    for n in (0..=64usize).step_by(if tier == "miri" { 8 } else { 1 }) {
         let s: String = (0..n).map(|i| FILL[i % 16] as char).collect();
         judge(&mut rep, &s, "length_sweep", true);
         rep.distinct_extra += 1;
